@@ -434,7 +434,7 @@ fn random_gate(rng: &mut Rng, n: usize) -> GateCase {
 fn part_b(ctx: &mut Ctx) {
     let tier = ctx.tier;
     let n_max = tier.pick(4usize, 5usize);
-    let budget = ctx.share(tier.pick(12_000, 200_000));
+    let budget = ctx.share(tier.pick(60_000, 400_000));
     let mut rng = ctx.rng(2);
     for _ in 0..budget {
         let n = 1 + rng.below(n_max);
